@@ -451,31 +451,36 @@ class POSet:
                         relatives.append(dct[item])
                         del dct[item]
                     else:
-                        relatives.append(set())
+                        relatives.append(None)
                 ancestors, descendants, parents, children = relatives
 
-                for parent in parents:
-                    if parent not in self._cache_children:
-                        continue
-                    new_children = (self._cache_children[parent] | children) - {item}
-                    for new_child in list(new_children):
-                        new_children -= self._cache_descendants[new_child]
-                    self._cache_children[parent] = frozenset(new_children)
+                # Only the direct relations that mention ``item`` change: its children get reconnected
+                # to its parents. If the information needed to do it exactly is not cached,
+                # drop the affected entry, so that it is recomputed on demand.
+                for parent in [p for p, chs in self._cache_children.items() if item in chs]:
+                    new_children = (self._cache_children[parent] | children) - {item} if children is not None else None
+                    if new_children is not None and all(ch in self._cache_descendants for ch in new_children):
+                        for new_child in list(new_children):
+                            new_children -= self._cache_descendants[new_child]
+                        self._cache_children[parent] = frozenset(new_children)
+                    else:
+                        del self._cache_children[parent]
 
-                for child in children:
-                    if child not in self._cache_parents:
-                        continue
-                    new_parents = (self._cache_parents[child] | parents) - {item}
-                    for new_parent in list(new_parents):
-                        new_parents -= self._cache_ancestors[new_parent]
-                    self._cache_parents[child] = frozenset(new_parents)
+                for child in [c for c, prs in self._cache_parents.items() if item in prs]:
+                    new_parents = (self._cache_parents[child] | parents) - {item} if parents is not None else None
+                    if new_parents is not None and all(pr in self._cache_ancestors for pr in new_parents):
+                        for new_parent in list(new_parents):
+                            new_parents -= self._cache_ancestors[new_parent]
+                        self._cache_parents[child] = frozenset(new_parents)
+                    else:
+                        del self._cache_parents[child]
 
-                for ancestor in ancestors:
+                for ancestor in (ancestors or ()):
                     if ancestor not in self._cache_descendants:
                         continue
                     self._cache_descendants[ancestor] = self._cache_descendants[ancestor] - {item}
 
-                for descendant in descendants:
+                for descendant in (descendants or ()):
                     if descendant not in self._cache_ancestors:
                         continue
                     self._cache_ancestors[descendant] = self._cache_ancestors[descendant] - {item}
